@@ -143,6 +143,14 @@ def alterations_for(c, rng, known_bits, n_masks, n_combo):
     if np_ >= 2:
         i = rng.randint(1, np_ - 1)
         alts.append(("varname", i, c.co_varnames[rng.randint(0, i - 1)]))
+    if len(c.co_varnames) > np_ >= 1:
+        # a plain local that repeats a parameter's (or another local's) name
+        j = rng.randint(np_, len(c.co_varnames) - 1)
+        alts.append(("varname", j, c.co_varnames[rng.randint(0, j - 1)]))
+        alts.append(("varname", j, c.co_varnames[np_ - 1]))
+    # both function flags cleared at once (a single-bit flip never reaches the non-function branch with arguments)
+    if (c.co_flags & 3) == 3:
+        alts.append(("flag-mask", 3))
     return alts
 
 
